@@ -16,6 +16,7 @@ RULE = ("(structure) online-generated histories heavy in enable / modify / pulse
         "propagation of their twin (same pulse slots, requested phases, zero detuning in the gaps): populations within "
         "1e-9 for the exactly propagated emulator Hamiltonian (5e-3 for the emulator's ODE solution), with |delta_off| x gap >= pi/4 so that a missing correction is visible. non-trivial = distinct structure "
         "case with >= 2 pulses in a block with non-zero off-detuning, plus distinct physics programs")
+RULE += " Later additions: motif: a pulse, delays shorter together than its fall time (the last about one rise time), then enable_eom_mode."
 ASSUMPTIONS = ["EOM bandwidth >= channel bandwidth", "the emulator Hamiltonian read at every ns is propagated exactly (1e-9); the emulator ODE solution itself is compared at 5e-3 (edge interpolation of square pulses)"]
 TIERS = {"quick": dict(cases=900, shards=8, case_timeout=240, shard_timeout=1200),
          "thorough": dict(cases=14000, shards=16, case_timeout=240, shard_timeout=3400)}
